@@ -32,3 +32,39 @@ def gen_paths(ctx, spec_dir, module, cfg, overrides=None, timeout=None, workers=
          "all_paths": r.distinct, "maximal_paths": len(out), "wall_s": round(r.wall_s, 2)}]
     out.sort(key=lambda ep: json.dumps(ep, sort_keys=True))
     return out
+
+
+def binding_demo(ctx, spec_dir, module, cfg, traces, corrupt):
+    """Non-vacuity of the trace validation: take a recorded trace that TLC accepts, (a) corrupt one
+    logged observation with `corrupt(event)` and (b) drop one event; TLC must reject both, else the
+    trace specification binds nothing (machinery failure, exit 2)."""
+    import copy
+    from . import framework
+    spec_dir = os.path.join(VERIF, "specs", spec_dir)
+    cfgp = os.path.join(spec_dir, cfg)
+    cands = [t for t in traces if len(t["ev"]) >= 3][:40]
+    acc, _ = framework._validate_shards(spec_dir, module, cfgp, cands, 1, ctx.scratch, ctx.pick(300, 900), verbose=False)
+    good = [t for t in cands if t["id"] in acc]
+    if not good:
+        raise Machinery("binding demo: no accepted trace with >= 3 events to corrupt")
+    base = good[0]
+    a = copy.deepcopy(base)
+    a["id"] = 900001
+    k = len(a["ev"]) // 2
+    corrupt(a["ev"][k])
+    b = copy.deepcopy(base)
+    b["id"] = 900002
+    for i, e in enumerate(b["ev"][:-1]):
+        if e["obs"] != b["ev"][i + 1]["obs"] and (i == 0 or e["obs"] != b["ev"][i - 1]["obs"]):
+            del b["ev"][i]          # an event that changed the observation
+            break
+    else:
+        b = None
+    demo = [base, a] + ([b] if b else [])
+    acc, _ = framework._validate_shards(spec_dir, module, cfgp, demo, 1, ctx.scratch, ctx.pick(300, 900), verbose=False)
+    if base["id"] not in acc:
+        raise Machinery("binding demo: the unmodified trace was not accepted")
+    bad = [t["id"] for t in demo[1:] if t["id"] in acc]
+    if bad:
+        raise Machinery("binding demo: corrupted traces %s were accepted by %s" % (bad, module))
+    ctx.cov["binding_demo"] = {"module": module, "base_trace": base["id"], "corrupted_rejected": len(demo) - 1}
